@@ -147,12 +147,17 @@ Theorem tv_no_lost_wakeup_trigger : forall a0 progs s t l,
   (fslp l < trig_stamp (gl s) -> trig_stamp (gl s) < clear_stamp (gl s)) /\
   (fslp l < rexit_stamp (gl s) -> rexit_stamp (gl s) < clear_stamp (gl s)).
 Proof. exact no_lost_wakeup_trigger. Qed.
+(* the reset() half on its own: a reset() that found (or made) triggered = true after the thread first went to sleep
+   was followed by a re-activation's clear; tv_reset_exit says what such a loop exit is *)
 Theorem tv_no_lost_wakeup_reset : forall a0 progs s t l,
   R a0 progs s -> quiescent glob loc tstep s -> nth_error (thr s) t = Some l -> is_Wwoken (at_ l) = true ->
-  0 < fslp l /\
-  (fslp l < trig_stamp (gl s) -> trig_stamp (gl s) < clear_stamp (gl s)) /\
-  (fslp l < rexit_stamp (gl s) -> rexit_stamp (gl s) < clear_stamp (gl s)).
-Proof. exact no_lost_wakeup_trigger. Qed.
+  fslp l < rexit_stamp (gl s) -> rexit_stamp (gl s) < clear_stamp (gl s).
+Proof. exact no_lost_wakeup_reset. Qed.
+Theorem tv_reset_exit : forall t c g l g' l' es,
+  at_ l = R_loop -> tstep t c g l = Some (g', l', es) ->
+  (triggered g = true -> at_ l' = R_store /\ rexit_stamp g' = now g) /\
+  (triggered g = false -> at_ l' = R_unl /\ rexit_stamp g' = rexit_stamp g).
+Proof. exact reset_exit_step. Qed.
 
 (* the same as "every waiter has returned": without a re-activation since the trigger (triggered still true),
    a state in which nothing moves has no thread inside wait() / wait_for() *)
@@ -164,7 +169,9 @@ Proof. exact trigger_releases. Qed.
 (* activate() releases the threads blocked in waitActivation() PROVIDED NO reset() DEACTIVATES THE VARIABLE BEFORE
    THEY HAVE RE-TESTED IT: a thread still blocked when nothing moves, although an activated=true store was made
    after it first went to sleep, has seen that activation undone by a later activated=false store.
-   This proviso is NOT in the property's statement (which only excludes re-activation) and it is needed:
+   This proviso is NOT in the property's statement (which only excludes re-activation) and it is needed;
+   the violation of the statement as written is recorded as an OPEN entry of /verif/known_findings.json
+   (property C11, monitor trigger.activate_lost_to_reset, reproducer corpus/C11/trigger_windows.case case 0):
 
    Theorem tv_no_lost_wakeup_activate (as the property states it, FALSE for the code):
      R a0 progs s -> quiescent s -> is_Vwoken (at_ l) = true -> fslp l < act_stamp (gl s) -> nact (gl s) > 1
@@ -188,6 +195,25 @@ Theorem tv_no_lost_wakeup_activate_refuted :
     quiescent glob loc tstep s /\ nth_error (thr s) t = Some l /\ at_ l = V_woken false /\ In t (slA (gl s)) /\
     0 < fslp l /\ fslp l < act_stamp (gl s) /\ nact (gl s) = 1 /\ activated (gl s) = false.
 Proof. exact activate_release_unconditional_refuted. Qed.
+
+(* bounded work (P2), for programs WITHOUT reset(): every schedule without spurious wake-ups (time-outs allowed)
+   makes at most mu(s) moves, so together with tv_deadlock_shape every such run ends in a state of the stated shape.
+
+   Theorem tv_bounded_work (full strength, FALSE for the code): the same for all programs.
+   reset() busy-waits - `while (!triggered) { unlock; trigger(); lock; }` - for as long as a concurrent
+   activate() sits between its `triggered = false` and its `activated = true` (tv_reset_spins: four steps of the
+   resetter lead back to the same visible state while the activator is enabled); it ends as soon as the
+   activator is scheduled, so this is a limit of the measure argument, not a lost wake-up. *)
+Theorem tv_bounded_work_partial : forall a0 progs s sc,
+  RP a0 progs s -> sched_ok no_spurious sc -> moves glob loc tstep s sc <= mu s.
+Proof. exact bounded_work. Qed.
+
+Theorem tv_reset_spins :
+  same_visible spin_state (run glob loc tstep spin_state (repeat (0, 0) 4)) /\
+  moves glob loc tstep spin_state (repeat (0, 0) 4) = 4 /\
+  pcof (thr spin_state) 0 = T_load InReset /\ pcof (thr spin_state) 1 = A_lockA /\
+  enabled glob loc tstep spin_state 1 0.
+Proof. exact reset_spins. Qed.
 
 (* ------------------------------------------------------------------ non-vacuity *)
 Notation runT := (run glob loc tstep).
@@ -250,3 +276,7 @@ Proof.
   cbn zeta. split; [apply qcheck_quiescent; vm_compute; reflexivity|].
   vm_compute. eexists. split; [reflexivity|]. repeat split; auto; lia.
 Qed.
+
+(* a reset-free program in the middle of its run: the hypotheses of tv_bounded_work_partial *)
+Example ex_bounded_work : RP false ex_progs ex_state /\ mu ex_state = 1.
+Proof. split; [split; [reflexivity|exists ex_sched; reflexivity]|vm_compute; reflexivity]. Qed.
